@@ -496,3 +496,12 @@ func (p *Program) Duplicates() []string {
 	}
 	return out
 }
+
+// A decorator type "<T>+deco" is a struct that embeds *T and nothing else: every method of the
+// component - interfaces, Init, AfterPropertiesSet, Order - is promoted and reaches the very
+// component it decorates.
+const decoSuffix = "+deco"
+
+func IsDeco(name string) bool     { return strings.HasSuffix(name, decoSuffix) }
+func DecoOf(name string) string   { return name + decoSuffix }
+func DecoBase(name string) string { return strings.TrimSuffix(name, decoSuffix) }
